@@ -23,8 +23,8 @@ def decl_def(ctx: core.Ctx, w: "witness.Witness"):
     for ctl in (False, True):
         for cal in (False, True):
             v = witness.Valuation(ctl, cal)
-            ev = minieval.MiniEval({"ast_fragments": w.frag, "cpp": w.cpp}, aliases={"fragments": "ast_fragments"})
-            gen = witness.FakeGenerator(v)
+            ev = w.evaluator()
+            gen = witness.FakeGenerator(v, w)
             header = ev.call_named("cpp", "_header_body", generator=gen)
             source = ev.call_named("cpp", "_source_body", generator=gen)
             decls = {}
